@@ -141,7 +141,8 @@ CHECKS["C03"] = dict(
          "operations of C12. Image table as a state machine (Model.Batch): after EVERY history of add_tomogram "
          "(automatic or new explicit id) / filter / add_loader(batch or self-copy) the ids are unique and the "
          "image found under each molecule's id is the tomogram it was registered with (history_lookup_own, "
-         "induction over the operation list; fresh-id search proved total by pigeonhole). polars/numpy/dask "
+         "induction over the operation list; fresh-id search proved total by pigeonhole); a merge neither loses nor "
+         "duplicates a molecule and a filter keeps a sublist. polars/numpy/dask "
          "primitives are parameters; histories on a real BatchLoader with source-identifying tomograms are "
          "compared with both models (K2 m:batch, m:imgtab).",
     design="5 C03", technique="Lean 4 proof (scatter correctness for all key sequences; image-table invariant by induction over operation histories) + history correspondence")
